@@ -145,7 +145,7 @@ def generate(seeds=(1, 2, 3), tier="quick"):
 # the verified simplifier behind the generated *_exact theorems (hand-written, audited with the generated ones)
 STATIC = [('NdeVerif.Calc.FExSound', 'NdeVerif.FEx', ['normC_sound', 'eval_subst', 'exact_at', 'exact_at2', 'eval_withApp', 'exact_withApp', 'network_free_at']),
           ('NdeVerif.Calc.FExReal', 'NdeVerif', ['realArith_exact']),
-          ('NdeVerif.Calc.FExToEx', 'NdeVerif', ['eval_litEx', 'eval_toEx', 'exact_transfers', 'realArithOf_exact'])]
+          ('NdeVerif.Calc.FExToEx', 'NdeVerif', ['eval_litEx', 'eval_toEx', 'exact_transfers', 'realArithOf_exact', 'allHold_of_isFin', 'allHold_of_isFin_or'])]
 
 ASSUMPTIONS = [
     'theorems are over the reals: floating-point rounding is not modelled - except the *_exact theorems of the operation-order model, which hold '
